@@ -157,6 +157,23 @@ Definition merge_graph (a b : value) : list node * list edge :=
 Definition merge isc nm (a b : value) : result model :=
   let '(V, E) := merge_graph a b in mk_model isc nm V E.
 
+(* merge(model, *models) with several operands, lists/tuples of nodes and models being flattened first
+   (`x & [y, z]`, `m &= [y, z]`, `merge(x, y, [z, w])`): [bs] is the flattened operand list *)
+Definition merge_graph_l (a : value) (bs : list value) : list node * list edge :=
+  (nodup Nat.eq_dec (flat_map v_nodes bs ++ v_nodes a), nodup edge_eq_dec (flat_map v_edges bs ++ v_edges a)).
+Definition merge_l isc nm (a : value) (bs : list value) : result model :=
+  let '(V, E) := merge_graph_l a bs in mk_model isc nm V E.
+
+(* Model.update_graph (`m &= b`): nodes/edges are united, Concats inserted, entries/exits computed and the graph
+   sorted FIRST; only then is the model object modified.  Returns (what the expression evaluates to, the state of the
+   object m afterwards): a rejected update leaves m as it was. *)
+Definition update_graph isc nm (m : model) (bs : list value) : result model * model :=
+  match merge_l isc nm (VModel m) bs with
+  | Ok m' => (Ok m', m')
+  | ErrCycle => (ErrCycle, m)
+  | ErrFuel => (ErrFuel, m)
+  end.
+
 (* ------------------------------------------------------------------ expressions (scenario language of the harness)
    Every Model construction carries the table child |-> id of the Concat inserted in front of it (observed on the real
    objects); a child absent from the table gets the fallback id [fb + child] ([fb] above every id in use). *)
@@ -170,7 +187,8 @@ Inductive expr :=
 | ENode (n : node)                                          (* a bare node *)
 | EGraph (t : table) (V : list node) (E : list edge)        (* Model(nodes=V, edges=E) *)
 | ELink (t : table) (ls rs : list expr)                     (* link(ls, rs): l >> r, [l..] >> r, l >> [r..] *)
-| EMerge (t : table) (a b : expr).                          (* a & b   and   a &= b (a a Model) *)
+| EMerge (t : table) (a b : expr)                           (* a & b   and   a &= b (a a Model) *)
+| EMergeL (t : table) (a : expr) (bs : list expr).          (* a & [b..], a &= [b..], merge(a, b, [c, d]) flattened *)
 
 Fixpoint sequence {A} (l : list (result A)) : result (list A) :=
   match l with
@@ -198,6 +216,12 @@ Fixpoint eval (isc : node -> bool) (fb : nat) (e : expr) : result value :=
       match eval isc fb a with
       | Ok va => match eval isc fb b with
                  | Ok vb => lift (merge isc (naming fb t) va vb)
+                 | ErrCycle => ErrCycle | ErrFuel => ErrFuel end
+      | ErrCycle => ErrCycle | ErrFuel => ErrFuel end
+  | EMergeL t a bs =>
+      match eval isc fb a with
+      | Ok va => match sequence (map (eval isc fb) bs) with
+                 | Ok vb => lift (merge_l isc (naming fb t) va vb)
                  | ErrCycle => ErrCycle | ErrFuel => ErrFuel end
       | ErrCycle => ErrCycle | ErrFuel => ErrFuel end
   end.
